@@ -125,6 +125,7 @@ func checkOne(p, p386 *Program, pd *propDef, tier string, seed int, verbose bool
 	t1 := time.Now()
 	var results []*RuleResult
 	setWordBits(p.Arch)
+	theProgram = p
 	for _, rf := range pd.Rules {
 		results = append(results, rf(p))
 	}
@@ -132,6 +133,8 @@ func checkOne(p, p386 *Program, pd *propDef, tier string, seed int, verbose bool
 	if p386 != nil {
 		setWordBits(p386.Arch)
 		defer setWordBits(p.Arch)
+		theProgram = p386
+		defer func() { theProgram = p }()
 		// second architecture: same rules; obligations are merged under an
 		// "@386" suffix so both passes must hold.
 		for _, rf := range pd.Rules {
